@@ -14,9 +14,12 @@
   (`datetime`'s ordinal arithmetic / `calendar.timegm`; the algorithms are H. Hinnant's `days_from_civil` /
   `civil_from_days`, eras of 400 years starting on 1 March).
 
-Not modelled (stated in the harness assumptions): `\d` of Python's `re` also matches non-ASCII decimal digits;
-a fraction is added as a binary `float`, so a fraction closer than 2⁻¹⁵ to 0 or 1 (five or more leading `0`s / `9`s)
-can be rounded to the neighbouring integer by Python — the model computes with the exact decimal value. -/
+A fraction is added by Python as a binary `float` (`timestamp += float("0" + fraction)`, then `timestamp -= offset`,
+then `int(·)`), so `.99999` after 9999-12-31T23:59:59 is the next second: `floatPath` reproduces this with exact
+round-to-nearest-even binary64 arithmetic on rationals (`roundDouble`).  Without a fraction everything is integer
+arithmetic.
+
+Not modelled (stated in the harness assumptions): `\d` of Python's `re` also matches non-ASCII decimal digits. -/
 namespace Civil
 
 /-! ### days ↔ civil date -/
@@ -128,20 +131,65 @@ def parseOffset (sg a b c e f : Char) : Option Int :=
     | _, _ => none
   else none
 
-/-- `(Z|([+\-])(\d\d):(\d\d))$`; `$` matches at the end and before a final newline -/
-def parseZone : List Char → Option Int
-  | ['Z'] => some 0
-  | ['Z', '\n'] => some 0
-  | [sg, a, b, c, e, f] => parseOffset sg a b c e f
-  | [sg, a, b, c, e, f, '\n'] => parseOffset sg a b c e f
+/-- `(Z|([+\-])(\d\d):(\d\d))$`; `$` matches at the end and before a final newline.  `some none` = `Z` -/
+def parseZone : List Char → Option (Option Int)
+  | ['Z'] => some none
+  | ['Z', '\n'] => some none
+  | [sg, a, b, c, e, f] => (parseOffset sg a b c e f).map some
+  | [sg, a, b, c, e, f, '\n'] => (parseOffset sg a b c e f).map some
   | _ => none
 
+/-! #### binary64 arithmetic of the fraction -/
+
+/-- ⌊log₂ (a / d)⌋ for `a, d > 0` -/
+def log2Ratio (a d : Nat) : Int :=
+  let k : Int := (a.log2 : Int) - (d.log2 : Int)       -- ⌊log₂ (a / d)⌋ is `k - 1` or `k`
+  let ge : Bool := if k ≥ 0 then d * 2 ^ k.toNat ≤ a else d ≤ a * 2 ^ (-k).toNat
+  if ge then k else k - 1
+
+/-- `n / d` (`d > 0`) rounded to the nearest IEEE-754 binary64, ties to even, as the dyadic `m · 2^e`
+(subnormals and underflow to 0 included; no overflow: the magnitudes here are far below 2^1023) -/
+def roundDouble (n : Int) (d : Nat) : Int × Int :=
+  if n = 0 then (0, 0) else
+  let a := n.natAbs
+  let e : Int := max (log2Ratio a d - 52) (-1074)
+  let num := if e ≥ 0 then a else a * 2 ^ (-e).toNat      -- a / (d · 2^e) as a quotient of naturals
+  let den := if e ≥ 0 then d * 2 ^ e.toNat else d
+  let q := num / den
+  let r := num % den
+  let m := if 2 * r > den ∨ (2 * r = den ∧ q % 2 = 1) then q + 1 else q
+  ((if n < 0 then -(m : Int) else (m : Int)), e)
+
+/-- an integer plus a dyadic, as a fraction -/
+def addIntDyadic (t : Int) (x : Int × Int) : Int × Nat :=
+  if x.2 ≥ 0 then (t + x.1 * 2 ^ x.2.toNat, 1) else (t * 2 ^ (-x.2).toNat + x.1, 2 ^ (-x.2).toNat)
+
+/-- `int(x)` of a dyadic: truncation toward zero -/
+def truncDyadic (x : Int × Int) : Int :=
+  if x.2 ≥ 0 then x.1 * 2 ^ x.2.toNat
+  else if x.1 ≥ 0 then x.1 / 2 ^ (-x.2).toNat else -((-x.1) / 2 ^ (-x.2).toNat)
+
+/-- `int(ds)` for ASCII digits -/
+def digitsNat (ds : List Char) : Nat := ds.foldl (fun acc c => acc * 10 + (c.toNat - 48)) 0
+
+/-- `int(total + float("0." + frac) - off)` with every operation rounded to binary64; `off = none` for `Z`
+(nothing is subtracted) -/
+def floatPath (total : Int) (frac : List Char) (off : Option Int) : Int :=
+  let f := roundDouble (digitsNat frac) (10 ^ frac.length)
+  let s := addIntDyadic total f
+  let x1 := roundDouble s.1 s.2
+  let x2 := match off with
+    | none => x1
+    | some o => let s2 := addIntDyadic (-o) x1; roundDouble s2.1 s2.2
+  truncDyadic x2
+
 /-- the fields of `YYYY-MM-DDTHH:MM:SS` once the regular expression has matched: the checks of `validate_rfc3339`,
-`calendar.timegm`, fraction and offset, `int(·)` (truncation toward zero) -/
-def assemble (y m d h n s : Int) (frac : List Char) (off : Int) : Option Int :=
+`calendar.timegm`, fraction and offset (`none` = `Z`), `int(·)` -/
+def assemble (y m d h n s : Int) (frac : List Char) (off : Option Int) : Option Int :=
   if 1 ≤ y ∧ y ≤ 9999 ∧ 1 ≤ m ∧ m ≤ 12 ∧ 1 ≤ d ∧ d ≤ monthLen y m ∧ h ≤ 23 ∧ n ≤ 59 ∧ s ≤ 59 then
-    let total := daysFromCivil y m d * 86400 + h * 3600 + n * 60 + s - off
-    some (if frac.any (· ≠ '0') && total < 0 then total + 1 else total)
+    let total := daysFromCivil y m d * 86400 + h * 3600 + n * 60 + s
+    if frac.isEmpty then some (total - off.getD 0)          -- integers throughout
+    else some (floatPath total frac off)
   else none
 
 def parseTimestamp (cs : List Char) : Option Int :=
